@@ -2135,6 +2135,17 @@ pub mod verif_hooks {
         }
     }
 
+    /// the value holds a strong count of its arena (root kind)
+    pub fn is_root_kind(v: &Value) -> bool {
+        v.meta.get_kind() == Meta::ROOT_NODE
+    }
+
+    /// the value is an owned (mutable) array or object whose children are values of their own
+    pub fn is_owned_container(v: &Value) -> bool {
+        v.meta.get_kind() == Meta::OWNED_NODE
+            && matches!(v.meta.get_type(), Meta::ARR_MUT | Meta::OBJ_MUT)
+    }
+
     /// address of the arena a value lives in (0: none)
     pub fn arena_addr(v: &Value) -> usize {
         arena_ptr(v) as usize
